@@ -52,7 +52,7 @@ _BASE_PATHS = ["/", "/a/b", "/a;p", "/a?old=1", "/a/b?x=1&x=2#frag", "/a#frag", 
 _CTYPES = [None, "text/plain", "application/x-www-form-urlencoded", "application/x-www-form-urlencoded; charset=utf-8",
            "application/json"]
 _OLD_BODIES = [None, b"", b"a=1&b=2", b"a&b", b"x", b"\xff\xfe", b"a=1&b"]
-_CODINGS = [None, None, None, "gzip"]
+_CODINGS = [None, None, "gzip", "deflate", "br", "zstd"]   # Content-Encoding of the message the view lives on
 _WB_ATTRS = [["Path", "/"], ["path", "/a/b"], ["Expires", _DATES[0]], ["expires", _DATES[1]], ["Domain", "example.com"],
              ["Max-Age", "3600"], ["Secure", None], ["HttpOnly", None], ["SameSite", "Lax"], ["Partitioned", None]]
 _COOKIE_OCTETS = "abc019-._~!#$%&'()*+/:<=>?@[]^`{|}"
@@ -133,11 +133,12 @@ def build(rnd):
     view = pick(rnd, ["query", "form", "cookies", "setcookies", "multipart", "path"])
     if rnd.random() < 0.67 or view == "path":
         if view == "query":
-            return [view, "assign", pick(rnd, _BASE_PATHS), _g_qpairs(rnd)]
+            return [view, "assign", pick(rnd, _BASE_PATHS), _g_qpairs(rnd), pick(rnd, _CODINGS)]
         if view == "form":
             return [view, "assign", pick(rnd, _CTYPES), pick(rnd, _OLD_BODIES), pick(rnd, _CODINGS), _g_qpairs(rnd)]
         if view == "cookies":
-            return [view, "assign", [pick(rnd, ["a=b", "x=y; z=w", ""]) for _ in range(rnd.randint(0, 2))], _g_cpairs(rnd)]
+            return [view, "assign", [pick(rnd, ["a=b", "x=y; z=w", ""]) for _ in range(rnd.randint(0, 2))], _g_cpairs(rnd),
+                    pick(rnd, _CODINGS)]
         if view == "setcookies":
             return [view, "assign", [pick(rnd, ["a=b; Path=/", "x=y"]) for _ in range(rnd.randint(0, 2))],
                     [_g_setcookie(rnd) for _ in range(small(rnd, 3))]]
@@ -145,7 +146,8 @@ def build(rnd):
             r = rnd.random()
             boundary = None if r < 0.34 else pick(rnd, _BOUNDARIES) if r < 0.8 else pick(rnd, _BOUNDARIES_Q)
             return [view, "assign", boundary, pick(rnd, _OLD_BODIES),
-                    [[_g_mp_name(rnd), pick(rnd, _MP_VALS) if rnd.random() < 0.5 else rbytes(rnd, 0, 12)] for _ in range(small(rnd, 4))]]
+                    [[_g_mp_name(rnd), pick(rnd, _MP_VALS) if rnd.random() < 0.5 else rbytes(rnd, 0, 12)] for _ in range(small(rnd, 4))],
+                    pick(rnd, _CODINGS)]
         return [view, "assign", pick(rnd, _BASE_PATHS), [c for c in (_g_text(rnd, 1) for _ in range(small(rnd, 4))) if c]]
     if view == "query":
         return [view, "writeback", pick(rnd, ["/p", "/a/b;x", "/"]), _g_qpairs(rnd), rnd.randint(0, 7), pick(rnd, ["", "#f"])]
@@ -160,7 +162,7 @@ def build(rnd):
                                     for _ in range(rnd.randint(1, 3))], rnd.randint(0, 1)]
     return [view, "writeback", pick(rnd, _BOUNDARIES),
             [[pick(rnd, [b"k", b"field1", b"a b", b"\xc3\xa9"]), pick(rnd, [b"", b"v", b"value1", b"two words", b"\x00\xff", b"x--XXy"])]
-             for _ in range(small(rnd, 3))]]
+             for _ in range(small(rnd, 3))], pick(rnd, _CODINGS)]
 
 
 def run(ctx):
@@ -324,6 +326,44 @@ def _classes(strings):
     return cl
 
 
+_PAYLOAD = b"payload \xff\x00 of the message"
+
+
+def _with_coding(r, coding, body):
+    """put `body` on the message under Content-Encoding `coding` (stored encoded, as it would arrive from the wire)"""
+    if coding:
+        r.headers["content-encoding"] = coding
+    r.content = body
+    return r
+
+
+def _check_add(ctx, viewname, view_of, r, pairs, k, v):
+    """single-field edits through the live view: set one key, then add one pair; everything else must stay"""
+    view_of(r)[k] = v
+    want, done = [], False
+    for p in pairs:
+        if p[0] == k:
+            if not done:
+                want.append((k, v))
+                done = True
+        else:
+            want.append(p)
+    if not done:
+        want.append((k, v))
+    got = _items(view_of(r))
+    if got != want:
+        ctx.fail("edit-setitem:%s" % viewname, "view had %r; after view[%r] = %r it reads %r" % (pairs[:5], k, v, got[:6]))
+        return
+    try:
+        view_of(r).add(k, v)
+    except TypeError as e:
+        ctx.fail("edit-add-raises:%s" % viewname, "view.add(%r, %r) raises TypeError: %s" % (k, v, e))
+        return
+    got = _items(view_of(r))
+    if got != want + [(k, v)]:
+        ctx.fail("edit-add:%s" % viewname, "view had %r; after .add(%r, %r) it reads %r" % (want[:5], k, v, got[:6]))
+
+
 def _items(view):
     return [tuple(x) for x in view.items(multi=True)]
 
@@ -355,15 +395,21 @@ def check_case(case, ctx):
 
 # ---- query
 def _query_assign(case, ctx):
-    _, _, base, pairs = case
+    base, pairs = case[2], case[3]
+    coding = case[4] if len(case) > 4 else None
     pairs = [tuple(p) for p in pairs]
-    r = _req(base)
+    r = _with_coding(_req(base), coding, _PAYLOAD)
     p0, q0, f0 = ref_split_target(base)
     r.query = pairs
     got = _items(r.query)
     cl = _classes([x for p in pairs for x in p])
     if got != pairs:
         _fail_rt(ctx, "query", pairs, got, cl, "path %r -> %r: " % (base, r.path))
+    else:
+        _check_add(ctx, "query", lambda m: m.query, r, pairs, "zz", "1")
+        r.query = pairs
+    if r.get_content(strict=False) != _PAYLOAD:
+        ctx.fail("view-touches-body:query", "body %r after assigning the query" % (r.get_content(strict=False),))
     p1, q1, f1 = ref_split_target(r.path)
     if ref_segments(p1) != ref_segments(p0) or (f1 or "") != (f0 or ""):
         ctx.fail("query-assign-changes-path", "path %r became %r" % (base, r.path))
@@ -405,6 +451,9 @@ def _form_assign(case, ctx):
     cl = _classes([x for p in pairs for x in p])
     if got != pairs:
         _fail_rt(ctx, "form", pairs, got, cl, "old body %r: " % (old,))
+    else:
+        _check_add(ctx, "form", lambda m: m.urlencoded_form, r, pairs, "zz", "1")
+        r.urlencoded_form = pairs
     want = [(k.encode("utf-8", "surrogateescape"), v.encode("utf-8", "surrogateescape")) for k, v in pairs]
     body = r.get_content(strict=False)
     if ref_qs_decode(body) != want:
@@ -433,14 +482,20 @@ def _form_writeback(case, ctx):
 
 # ---- request cookies
 def _cookies_assign(case, ctx):
-    _, _, old, pairs = case
+    old, pairs = case[2], case[3]
+    coding = case[4] if len(case) > 4 else None
     pairs = [tuple(p) for p in pairs]
-    r = _req("/", [(b"Cookie", o.encode()) for o in old])
+    r = _with_coding(_req("/", [(b"Cookie", o.encode()) for o in old]), coding, _PAYLOAD)
     r.cookies = pairs
     got = _items(r.cookies)
     cl = _classes([x for p in pairs for x in p])
     if got != pairs:
         _fail_rt(ctx, "cookies", pairs, got, cl, "header %r: " % (r.headers.get_all("cookie"),))
+    else:
+        _check_add(ctx, "cookies", lambda m: m.cookies, r, pairs, "zz", "1")
+        r.cookies = pairs
+    if r.get_content(strict=False) != _PAYLOAD:
+        ctx.fail("view-touches-body:cookies", "body %r after assigning cookies" % (r.get_content(strict=False),))
     if len(r.headers.get_all("cookie")) != 1:
         ctx.fail("cookies-header-count", "Cookie headers after assignment: %r" % (r.headers.get_all("cookie"),))
     return cl | ({"pairs"} if pairs else set())
@@ -527,12 +582,13 @@ def _setcookies_writeback(case, ctx):
 
 # ---- multipart
 def _multipart_assign(case, ctx):
-    _, _, boundary, old, pairs = case
+    boundary, old, pairs = case[2], case[3], case[4]
+    coding = case[5] if len(case) > 5 else None
     pairs = [tuple(p) for p in pairs]
     fields = []
     if boundary is not None:
         fields.append((b"Content-Type", b"multipart/form-data; boundary=" + boundary.encode()))
-    r = _req("/", fields, old)
+    r = _with_coding(_req("/", fields, b""), coding, old)
     if boundary is not None:
         # not representable: a value that contains a full delimiter line
         for _, v in pairs:
@@ -555,17 +611,22 @@ def _multipart_assign(case, ctx):
             ctx.fail("multipart:linebreaks-in-value", "assigned %r, view reads %r" % (pairs[:4], got[:4]))
         else:
             _fail_rt(ctx, "multipart", pairs, got, cl)
+    elif bclass != "special-boundary":
+        _check_add(ctx, "multipart", lambda m: m.multipart_form, r, pairs, b"zz", b"1")
+    if coding:
+        cl.add("coding:" + coding)
     return cl | ({"pairs"} if pairs else set())
 
 
 def _multipart_writeback(case, ctx):
-    _, _, boundary, pairs = case
+    boundary, pairs = case[2], case[3]
+    coding = case[4] if len(case) > 4 else None
     pairs = [tuple(p) for p in pairs]
     b = boundary.encode()
     body = ref_multipart_encode(b, pairs)
     if ref_multipart_decode(b, body) != pairs:
         raise AssertionError("reference multipart codec does not round-trip %r" % (pairs,))
-    r = _req("/", [(b"Content-Type", b"multipart/form-data; boundary=" + b)], body)
+    r = _with_coding(_req("/", [(b"Content-Type", b"multipart/form-data; boundary=" + b)], b""), coding, body)
     before = _items(r.multipart_form)
     mid = any((b"--" + b) in v for _, v in pairs)
     if before != pairs:
